@@ -58,7 +58,16 @@ def geomCmd (f : List String) : Option String :=
     let ptol : Rat := 1 / 100000000 + ratAbs o.nodeHeight / 1000000000000   -- "%.8f" prints 8 decimals
     let sameBox := (nodes.zip boxes).all (fun p =>
       let org := boxOrigin o p.1
-      p.2.ox == (org.1 : Rat) && p.2.oy == (org.2 : Rat) && p.2.w == p.1.w && p.2.h == p.1.h)
+      -- sizes are printed with str(): the shortest decimal that reads back as the same double, not the double's exact value
+      let near (a b : Rat) : Bool := decide (ratAbs (a - b) ≤ ratAbs b / 1000000000000000)
+      -- "%i" truncates a float: when the exact coordinate is an integer (e.g. -(gap + H) + (H - h) with a non-terminating H) the float may sit
+      -- a hair on either side of it, so both truncations are legitimate
+      let np := nodePos o p.1
+      let dl : Rat := (ratAbs np.1 + ratAbs np.2 + ratAbs o.nodeHeight + 1) / 1000000000000
+      let truncNear (x obs : Rat) : Bool :=
+        obs == (truncToZero x : Rat) || obs == (truncToZero (x + dl) : Rat) || obs == (truncToZero (x - dl) : Rat)
+      (p.2.ox == (org.1 : Rat) || truncNear np.1 p.2.ox) && (p.2.oy == (org.2 : Rat) || truncNear np.2 p.2.oy) &&
+        near p.2.w p.1.w && near p.2.h p.1.h)
     let sameDot := (nodes.zip dots).all (fun p => decide (ratAbs (p.2 - p.1.ideal) ≤ 1 / 1000000 + ratAbs p.1.ideal / 1000000000000))
     let sameLink := (nodes.zip links).all (fun p => stepsClose (ptol + ratAbs p.1.ideal / 1000000000000) (pathSteps o p.1) p.2)
     -- C07 predicates on the printed geometry
@@ -155,7 +164,9 @@ def sizeCmd (f : List String) : Option String :=
       if dir.horizontalAxis then (it.1 + pl + pr, H + pt + pb)
       else if it.2 then (it.1 + pt + pb, H + pl + pr)
       else (H + pt + pb, it.1 + pl + pr)
-    let sizes := boxes.length == items.length && (items.zip boxes).all (fun p => (p.2.w, p.2.h) == expect p.1)
+    -- printed with str() (shortest round-trip decimal) after float additions: equal up to a few units in the last place
+    let near (a b : Rat) : Bool := decide (ratAbs (a - b) ≤ ratAbs b / 10000000000000)
+    let sizes := boxes.length == items.length && (items.zip boxes).all (fun p => near p.2.w (expect p.1).1 && near p.2.h (expect p.1).2)
     let verbatim := texts.all (fun p => p.1 == p.2)
     some s!"size sizes={okR sizes} texts={okR verbatim} n={items.length}"
   | _ => none
